@@ -48,9 +48,17 @@ impl Drop for Child {
     fn drop(&mut self) {
         self.track.src_dropped.set(self.track.src_dropped.get() + 1);
         if self.track.registered.get() {
+            LIVE_REG.with(|l| l.set(l.get() - 1));
             self.track.dropped_while_registered.set(self.track.dropped_while_registered.get() + 1);
         }
     }
+}
+
+thread_local! {
+    /// children of the wrapper that hold a registration right now / registration calls made while
+    /// another child still held one
+    static LIVE_REG: Cell<i32> = const { Cell::new(0) };
+    static OVERLAP: Cell<u32> = const { Cell::new(0) };
 }
 
 fn bump(c: &Cell<u32>) {
@@ -97,6 +105,11 @@ impl EventSource for Child {
         if r.is_ok() {
             if self.track.registered.get() {
                 bump(&self.track.double_reg);
+            } else {
+                if LIVE_REG.with(|l| l.get()) > 0 {
+                    OVERLAP.with(|o| o.set(o.get() + 1));
+                }
+                LIVE_REG.with(|l| l.set(l.get() + 1));
             }
             self.track.registered.set(true);
         } else {
@@ -126,6 +139,9 @@ impl EventSource for Child {
             Inner::Ping(p) => p.unregister(poll),
             Inner::Timer(t) => t.unregister(poll),
         };
+        if self.track.registered.get() {
+            LIVE_REG.with(|l| l.set(l.get() - 1));
+        }
         self.track.registered.set(false);
         if r.is_err() {
             bump(&self.track.reg_err);
@@ -403,6 +419,8 @@ impl Ctx {
 
 fn run_one(quick: bool, verbose: bool) -> Outcome {
     seqhooks::reset();
+    LIVE_REG.with(|l| l.set(0));
+    OVERLAP.with(|o| o.set(0));
     let mut out = Outcome::default();
     let mut el: EventLoop<'static, Ctx> = EventLoop::try_new().expect("loop");
     let epfd = std::os::fd::AsRawFd::as_raw_fd(&el);
@@ -465,6 +483,12 @@ fn run_one(quick: bool, verbose: bool) -> Outcome {
     let mut errors_seen = 0u32;
 
     let check = |ctx: &mut Ctx, host_alive: bool, host_enabled: bool, when: &str, sh: &Shared| {
+        // a child is only ever registered while it is the current child: at no registration call
+        // the wrapper makes may another (replaced, removed) child still hold its registration —
+        // with a replacement over the same descriptor that call would fail
+        if OVERLAP.with(|o| o.replace(0)) > 0 {
+            ctx.violate("child-registered-while-previous-child-still-registered", &[], format!("{when}: a child was registered while another child of the wrapper still held its registration"));
+        }
         // per child: alternation, never dropped while registered, registered iff current+kept+host registered
         for i in 0..ctx.children.len() {
             let tr = ctx.tracks[i].clone();
